@@ -353,6 +353,11 @@ func (p *PX) term(v ssa.Value, fr *pxFrame, st *pxState) *Term {
 							any = true
 						} else {
 							ft = &Term{K: TLeaf, T: stt.Field(i).Type(), key: "zero:" + types.TypeString(stt.Field(i).Type(), nil)}
+							// (a boolean / integer field the literal leaves out is false / 0:
+							// `listHeader{tag: t, hasLen: true}` has hasType == false)
+							if z := zeroOf(stt.Field(i).Type()); z != nil && (z.K == TBoolConst || z.K == TConst) {
+								ft = z
+							}
 						}
 						args = append(args, ft)
 						keys = append(keys, ft.key)
